@@ -109,7 +109,6 @@ def run(tier):
     common.lean_proof_step(chk, "YadismModel.Properties.C13", thorough=thorough)
     r = common.rng("C13")
     corr_weights.run_weights(chk, 1500 if thorough else 150, r)
-    corr_weights.run_combiner(chk, 150 if thorough else 15, r)
     search(chk, r, 160 if thorough else 20, 2 if thorough else 1)
     chk.assumptions += ["relations are proved for the weight maps; their lift to whole outputs uses linearity of the operator in the weights (opEntry) and is observed on pairs of real runs", "NC->EM: proved as NC-EM = eta*(A+eta*B); the real-run search uses MZ=MW=1e9"]
     return chk
